@@ -48,7 +48,7 @@ class Vocab:
         n_dt = n_dt if n_dt is not None else rng.randint(1, 6)
         self.ns = rng.sample(NAMESPACES, min(n_ns, len(NAMESPACES)))
         self.locals = rng.sample(LOCALS, min(n_local, len(LOCALS)))
-        self.extra_locals = [f"k{i}" for i in range(rng.choice([0, 0, 5, 30]))]
+        self.extra_locals = [f"k{i}" for i in range(rng.choice([0, 0, 5, 30, 150]))]
         dts = rng.sample(DATATYPES_UNKNOWN, min(n_dt, len(DATATYPES_UNKNOWN)))
         self.datatypes = dts + [XSD_STRING] + ([XSD + "integer"] if rng.random() < .5 else [])
         self.langs = LANGS_11 if mode == "rdf11" else LANGS_GEN
@@ -179,7 +179,7 @@ def preset_for(rng: random.Random, stmts: list[tuple], physical: int,
             return 0
         if x < small_bias:
             return need + rng.choice([0, 0, 1, 2, 3])
-        return rng.choice([need + 5, 16, 32, 128, 150, 4000, 4096]) if need <= 16 else need + rng.choice([5, 100])
+        return rng.choice([need + 5, 16, 32, 70, 100, 128, 150, 4000, 4096]) if need <= 16 else need + rng.choice([5, 100])
 
     max_names = max(size(nn, 8, False), nn, 8)
     if not pe:
